@@ -42,6 +42,7 @@ type HarnessSpec struct {
 	Thorough     TierSpec          `json:"thorough"`
 	NativeReplay bool              `json:"native_replay"`
 	PoolNondet   bool              `json:"pool_nondet"`
+	RandFixed    bool              `json:"rand_fixed"`
 	TimerPreempt bool              `json:"timer_preempt"`
 	ExpectEnds   []string          `json:"expect_ends"` // path-end kinds that are not violations (e.g. exit)
 	Noop         []string          `json:"noop_prefixes"`
@@ -72,6 +73,7 @@ type RunConfig struct {
 	Deadline      time.Duration
 	PoolNondet    bool
 	TimerPreempt  bool
+	RandFixed     bool
 	stubFns       map[string]*ssa.Function
 	apiPkg        string
 	noopPrefixes  []string
@@ -363,7 +365,7 @@ func runHarness(l *Loaded, spec *CheckSpec, h *HarnessSpec, tier string, extraPa
 	}
 	cfg := &RunConfig{Harness: h.Name, Params: map[string]int{}, MaxSteps: 2_000_000, MaxDepth: 400, MaxDecisions: 20000,
 		MaxConcretize: 300, MaxSamples: 6, MaxGoroutines: 16, MaxIdleTicks: 40, Preemptions: ts.Preemptions,
-		PoolNondet: h.PoolNondet, TimerPreempt: h.TimerPreempt, apiPkg: apiPkgPath, solverTimeout: 10000}
+		PoolNondet: h.PoolNondet, TimerPreempt: h.TimerPreempt, RandFixed: h.RandFixed, apiPkg: apiPkgPath, solverTimeout: 10000}
 	for k, v := range ts.Params {
 		cfg.Params[k] = v
 	}
